@@ -83,7 +83,7 @@ PROPS = {
                 "Time/Frequency depth 3 (16 cells), full and empty MOCs, boundary-biased random MOCs at all depths: cell view, cell-range view, flat cells, back to ranges, "
                 "round trips (cells, cell ranges, width through u64, NUNIQ ranges) against the identity; numbering schemes exhaustively for depths with <= 200 cells and "
                 "at first/last/middle/random indices for every depth up to MAX_DEPTH, for u16/u32/u64, incl. generic uniq -> range. distinct_nontrivial = distinct op lines with a non-empty MOC or a code.",
-        "explanation": "theorems: NUNIQ / z-uniq bijections and order for all depths, width round trip, one-step correctness of the greedy cell view; correspondence for the list-level views",
+        "explanation": "theorems: NUNIQ / z-uniq bijections and order for all depths, width round trip, one-step correctness of the greedy cell view, whole-MOC cell / cell-range round trips, cells_maximal (the cell view = the largest aligned cells), the ranges -> NUNIQ iterator transliterated (cover, maximal, same cells as the cell view: emitted_iff_cell); correspondence for the list-level views and, value by value, for the NUNIQ iterator",
     },
     "C18": {
         "trusted_base": COMMON_TB + ["IEEE-754: non-negative non-NaN doubles are ordered like their bit patterns; f64::to_bits/from_bits are exact (values are exchanged as bit patterns, never as decimal text)"],
@@ -104,7 +104,7 @@ PROPS = {
                 "without fold = model text; reader on it and on 4 folded/offset variants written from a lazy source of random kind (owned, borrowed, cells adapter, cellranges adapter, FITS stream) = model "
                 "reader; streaming ASCII x2, JSON x2 (folded), FITS ranges from an in-memory and from a lazy writer (header NAXIS1/NAXIS2 vs data, 2880 blocks, data bytes = model), read back and compared "
                 "with (depth, ranges); + 100 (5000) space MOCs through NUNIQ FITS. distinct_nontrivial = distinct op lines with a non-empty MOC.",
-        "explanation": "theorems: token-level ASCII round trip for every element list/order/dmax (incl. empty and unoccupied deepest level), big-endian and row pairing round trips, 2880 padding, NUNIQ code round trip; correspondence on real bytes for all formats and options",
+        "explanation": "theorems: token-level ASCII round trip for every element list/order/dmax (incl. empty and unoccupied deepest level), big-endian and row pairing round trips, 2880 padding, NUNIQ code round trip; CHARACTER-level ASCII round trip (decimal printing / lexing); the whole FITS file byte for byte (blocks, declared counts = data written, header values and ranges read back: fits_file_blocks / _structure / _roundtrip, NUNIQ file); correspondence on real bytes for all formats and options, whole files compared through length + FNV-1a",
     },
     "C11": {
         "trusted_base": COMMON_TB + ["word-level model of the FITS v2 ST rows; the bit test `start & end & MSB == MSB` is modelled as `both >= 2^(w-1)` (equal on w-bit words)"],
@@ -114,7 +114,7 @@ PROPS = {
         "rule": "three passes (time depth 2; depth 61 from 0; depth 61 just below the top of the time domain: indices above 2^53) of 400 (15000 thorough) ST-MOCs: empty (1 in 25), 1..many elements with multi-range time parts, one in five with a time range reaching the top of the time domain (2^62): FITS v2 written by the "
                 "real writer — its (start,end) rows = model rows (st_fits_enc), real reader on those rows = model reader (st_fits_dec), decoded value = original with both depths, re-serialisation gives the "
                 "same bytes; ASCII (fold 80) and JSON (fold 40) written and read back = original with both depths. distinct_nontrivial = distinct op lines with a non-empty MOC.",
-        "explanation": "theorems: FITS v2 row encoding inverted exactly for every element list (split on flag alternation), row count, empty MOC, necessity of non-empty space parts; correspondence on real files + direct ASCII/JSON round trips",
+        "explanation": "theorems: FITS v2 row encoding inverted exactly for every element list (split on flag alternation), row count, empty MOC, necessity of non-empty space parts; CHARACTER-level ST ASCII round trip; the whole ST FITS file (blocks, rows, elements read back); correspondence on real files (whole file through length + FNV-1a) + direct ASCII/JSON round trips",
     },
     "C12": {
         "trusted_base": COMMON_TB + ["the ASCII lexer model transliterates the nom combinators; serde_json and the FITS card readers are not modelled"],
@@ -157,7 +157,7 @@ PROPS = {
                 "random MOCs at all depths: expanded, contracted, and the definition not(expanded(not M)) evaluated by the model; space (Hpx u64, depths 0-2: sparse, dense, blobs around "
                 "base-cell corners and poles, empty, full): expanded, contracted, external/internal border, split with both connectivities (exact partition into connected components), "
                 "fill_holes (superset adding whole components) against the oracle. distinct_nontrivial = distinct op lines with a non-empty MOC.",
-        "explanation": "theorems: T/F expanded semantics + canonicity, T/F contracted per range, counterexample for the original formula; space: expansion / contraction / borders = their definitions and splitting = a correct partition (cover, closed, connected, separated) for every adjacency and every cell set; correspondence over the cdshealpix adjacency",
+        "explanation": "theorems: T/F expanded semantics + canonicity, T/F contracted per range, counterexample for the original formula; space: expansion / contraction / borders = their definitions and splitting = a correct partition (cover, closed, connected, separated) for every adjacency and every cell set; hole filling = the set plus the components of its complement other than the 1 + n largest; correspondence over the cdshealpix adjacency (u64, u32 and u16 MOCs)",
     },
     "C19": {
         "needs_bins": True,
@@ -173,7 +173,7 @@ PROPS = {
                 "a deterministic sweep text -> FITS at every depth around MAX_DEPTH of u16/u32 of each quantity (automatic narrowing); space-time ops in three passes (coarse time cells, 1-microsecond cells at 0 and at the top of the time domain) on random and RELATED ST operands; `from freqval` / `from freqrange` (hertz values as shortest round-trip decimals, depths around the frequency narrowing thresholds), `from timestamppos` / `from timerangepos` (microseconds + positions, judged point-wise on the ends of every observation and their neighbours); `from vcells` (ASCII multi-order map, all 16 option combinations, against the C20 model); NUNIQ (v1) left operand against a u32 right operand; `from timestamp` / `from timerange` (microseconds, depths 0..61, instants at both ends of the time domain, duplicates, touching ranges) "
                 "and `from pos`; invalid inputs (missing file, S-MOC vs T-MOC, stream inputs, truncated / corrupted / random / text-as-FITS files, out-of-domain / overlapping / reversed / garbage ASCII, garbage "
                 "lines and out-of-range depths for `from`, out-of-range degrade depth): non-zero exit status with a message and never exit 101. distinct_nontrivial = distinct op lines with a non-empty operand.",
-        "explanation": "theorems: stream handed to the writer = set operation on the two inputs for any widths and consistent hints, width independence in the 64-bit index space, complement, degrade, re-exported codec and builder theorems; correspondence on the real binary",
+        "explanation": "theorems: stream handed to the writer = set operation on the two inputs for any widths and consistent hints, width independence in the 64-bit index space, complement, degrade, re-exported codec and builder theorems; the date conversion of `from timestamp` counts days (every Gregorian date to the next = +1 Julian day, anchored) ; correspondence on the real binary, random civil dates included",
     },
     "C20": {
         "trusted_base": COMMON_TB + ["IEEE-754: arithmetic on the generated dyadic doubles (small integers times powers of 4) is exact, so the integer model and the f64 code coincide"],
@@ -221,7 +221,7 @@ PROPS = {
                 "history make + chgstatus removed: the updater is aborted at the point, then: list / extract of every listed live id / query must succeed and return the right MOCs, the listing "
                 "must be the one before or after the update, a second updater must be refused while the lock exists, and after removing the stale lock (+ tmp) a new append must succeed and every "
                 "MOC be right; one deterministic reader-in-progress scenario (a query blocked on an undrained pipe while an append of the 16001st MOC completes). All of it is direct observation of the real binary (op line = point reached). distinct_nontrivial = distinct (update, point) pairs.",
-        "explanation": "theorems on the effect-order model of append: every prefix of the repaired order is reader-consistent with listing before|after, WF preserved, the original order is inconsistent after the meta store",
+        "explanation": "theorems on the effect-order model of append: every prefix of the repaired order is reader-consistent with listing before|after, WF preserved, the original order is inconsistent after the meta store; on the FILE model (words and bytes): a kill after k stores of append is read back as exactly the old or the new moc-set, chgstatus leaves every word old or new; the file left at each kill point compared word for word",
     },
     "C08": {
         "trusted_base": COMMON_TB + ["specification-level model (point-set semantics, validity predicates); the Rust 2-D state machines are not transliterated: agreement is established point by point on a grid of representative instants/positions over an 8 x 4 cell universe"],
@@ -240,7 +240,7 @@ PROPS = {
                 "not the earliest, duplicates) x buffer capacities {1,2,3,100}: both streaming builders and the range-2D path (create_from_time_ranges_spatial_coverage) against the specification on "
                 "the grid; since the bug hunt 1 list in 3 holds an EMPTY time range (aligned on a cell boundary or, below depth 61, inside a cell), 1 in 3 an observation with an EMPTY coverage, and the (time range, cell) variant of the range-2D path and "
                 "from_time_and_coos (microseconds + centre of the cell) are driven too; the exact entries are compared with Consistent2D.fromObservations on ALL the observations. distinct_nontrivial = distinct op lines with more than one observation.",
-        "explanation": "theorems: specification = union of the products, order/duplicate independence, counterexample for the original make_consistent seed, and the transliterated make_consistent = union of the products + valid flat form for all entry lists; point-wise correspondence of the real paths + exact entries of the range-2D path",
+        "explanation": "theorems: specification = union of the products, order/duplicate independence, counterexample for the original make_consistent seed, and the transliterated make_consistent = union of the products + valid flat form for all entry lists; the transliterated buff_to_moc of the streaming builder = exactly the pushed pairs (canonical, order independent); point-wise correspondence of the real paths + exact entries of the range-2D path + exact elements of a single buffer",
     },
     "C10": {
         "trusted_base": COMMON_TB + ["point-set specification + validity predicates, AND a transliteration of Ranges2D::merge (Model/Merge2D.lean: the two cursors with parity are rendered as event lists carrying the state after each bound; the two output stacks zipped at the end as one stack of closed segments plus the open one): the rendering is validated by EXACT agreement of the entries with the real union / intersection / difference on every generated pair (op st_merge); the two folds are modelled at code level too"],
